@@ -618,6 +618,10 @@ func (ka *ecdheKeyAgreement) processServerKeyExchange(config *Config, clientHell
 			// (as the DHE path does), not internal constants.
 			auth.sh = SigAndHash{Signature: uint8(wireSigAlg), Hash: uint8(wireSigAlg >> 8)}
 		}
+		if sigType == signatureEd25519 {
+			// The ECDHE_ECDSA suites also carry Ed25519 signatures.
+			auth.sigType = signatureEd25519
+		}
 	default:
 		break
 	}
